@@ -71,10 +71,16 @@ def read_row(path, run_id):
 # ====================================================================== the lock alone
 
 class LockSystem:
-    def __init__(self, db_path, T=2, has_timeout=True, run_id="run1"):
+    def __init__(self, db_path, T=2, has_timeout=True, run_id="run1", fresh=True):
         m = _import()
         self.db, self.run_id = db_path, run_id
-        make_db(db_path)
+        if fresh or not os.path.exists(db_path):
+            make_db(db_path)
+        else:
+            c = sqlite3.connect(db_path)
+            c.execute("DELETE FROM run_lifecycle")
+            c.commit()
+            c.close()
         self.loop = vloop.new_loop(start=1000.0, wall_epoch=100000.0)
         _VirtualDatetime._loop = self.loop
         self.lock = m["lc"].SqliteRunLifecycleLock(db_path)
@@ -115,8 +121,8 @@ class LockSystem:
         vloop.close_loop(self.loop)
 
 
-def run_lock_history(db_path, history, T=2, has_timeout=True):
-    s = LockSystem(db_path, T=T, has_timeout=has_timeout)
+def run_lock_history(db_path, history, T=2, has_timeout=True, fresh=True):
+    s = LockSystem(db_path, T=T, has_timeout=has_timeout, fresh=fresh)
     try:
         return [s.apply(c) for c in history]
     finally:
@@ -137,6 +143,7 @@ class _GatedLock:
         self.sysm.log({"a": op, "who": who, "res": res, "row": read_row(self.sysm.db, self.sysm.run_id)})
         gate = "%s:%s" % (who, op)
         if gate in self.sysm.hold:
+            self.sysm.hold.discard(gate)               # one-shot: only the first such operation is held
             fut = self.sysm.loop.create_future()
             self.sysm.gates[gate] = fut
             await fut
@@ -214,11 +221,12 @@ class DecoSystem:
                     stranded = [type(x).__name__ for x in list(q.receive_queue._queue)]
                     sysm.log({"a": "loop_exit", "live": sysm.live_loops, "result": res,
                               "stranded_events": sum(1 for x in stranded if x == "TickAddEvent"),
-                              "running_steps": sysm.in_step})
+                              "running_steps": sysm.in_step, "unanswered": len(sysm.outstanding)})
                 q.complete.add_done_callback(done)
                 return ext
 
         self.queues = []
+        self.outstanding = set()     # events received by a control loop (or handed to a resume) and not yet answered
         self.in_step = 0
         self.basic = StandIn()
 
@@ -227,6 +235,8 @@ class DecoSystem:
                 r = await super().wait_receive(timeout_seconds)
                 if isinstance(r, WaitResultTick):
                     k = "rel" if isinstance(r.tick, TickIdleRelease) else ("ev" if isinstance(r.tick, TickAddEvent) else "other")
+                    if k == "ev":
+                        sysm.outstanding.add(str(getattr(r.tick.event, "response", "?")))
                     sysm.log({"a": "recv", "tick": k})
                 return r
 
@@ -281,6 +291,7 @@ class DecoSystem:
                 try:
                     await asyncio.sleep(1.0)                       # the step takes (virtual) time
                     sysm.answers += 1
+                    sysm.outstanding.discard(str(ev.response))
                     sysm.log({"a": "step", "name": "answer", "n": sysm.answers, "uid": str(ev.response)})
                 finally:
                     sysm.in_step -= 1
@@ -357,7 +368,7 @@ class DecoSystem:
 
     def summary(self):
         h = self.handler_row()
-        return {"events": self.events, "row": read_row(self.db, self.run_id),
+        return {"events": [dict(e) for e in self.events], "row": read_row(self.db, self.run_id),
                 "idle_marked": bool(h and h.idle_since is not None), "live": self.live_loops, "max_live": self.max_live,
                 "answers": self.answers, "senders": dict(self.senders), "pending_gates": sorted(self.gates),
                 "idle_timeout": int(self.idle_timeout), "n_events": self.n_events, "create_row": self.create_row}
@@ -386,6 +397,10 @@ def run_deco_case(db_path, case):
                 s.go(cmd[1])
             elif cmd[0] == "advance":
                 s.advance(float(cmd[1]))
+            elif cmd[0] == "probe":
+                h = s.handler_row()
+                s.log({"a": "probe", "name": cmd[1], "live": s.live_loops, "row": read_row(s.db, s.run_id),
+                       "idle_marked": bool(h and h.idle_since is not None), "answers": s.answers})
             else:
                 raise ValueError(cmd)
         out = s.summary()
